@@ -96,6 +96,12 @@ def main():
                     c = case_for(name, pos, kind)
                 report(c, 'lint', pos, 6 if c['kind'] == 'except' else len(name))
         # go-to-definition from a sample of reads
+        import_bound = set()
+        for nd in ast.walk(tree):
+            if isinstance(nd, ast.Import):
+                import_bound |= {a.asname or a.name.split('.')[0] for a in nd.names} | {a.name.split('.')[-1] for a in nd.names}
+            elif isinstance(nd, ast.ImportFrom):
+                import_bound |= {a.asname or a.name for a in nd.names}
         loads = [n for n in ast.walk(tree) if isinstance(n, ast.Name) and isinstance(n.ctx, ast.Load)
                  and 1 <= n.lineno <= len(lines) and ascii_line[n.lineno - 1]]
         rng.shuffle(loads)
@@ -119,6 +125,8 @@ def main():
                 if r.get('file') != fn or not r.get('loc'):
                     continue
                 pos = tuple(r['loc'])
+                if pos == (1, 0) and ident in import_bound:
+                    continue        # the read denotes a module (this very file, imported by itself): a module is reported at (1, 0)
                 if pos == (0, 0):
                     # open finding C11-dotted-import-line0: the wrapper object of a dotted import is reported at line 0
                     # (pinned by tests/test_assistant_location.py); excluded here, observed through the pinned input
